@@ -196,6 +196,9 @@ def run(ctx):
         monitor(ctx, spec, out)
 
 
+REPLAY = ("steps", monitor)      # harness/replay.py re-executes a recorded spec through this monitor
+
+
 def replay(ctx, data):
     import json
     print(json.dumps(data, indent=1)[:6000])
